@@ -61,7 +61,7 @@ def strategy(tier):
         {
             "inst": inst,
             "filters": gen.filter_configs(max_len=2),
-            "builder": st.sampled_from(sorted(obs.BUILDERS)),
+            "builder": gen.pick(sorted(obs.BUILDERS)),
             "features": obs.feature_configs(min_size=1, max_size=4),
             "events": gen.sized_lists(gen.weighted((3, d), (2, x)), 30),
         }
